@@ -602,3 +602,109 @@ func flatArgs(call *ssa.Call) []ssa.Value {
 	}
 	return out
 }
+
+// instrsThroughHelpers visits fn's instructions (with its virtually inlined helpers) and, for every synchronous call of a
+// private helper that is shared by several call sites, the helper's instructions as executed for THIS call site: while
+// they are visited the helper's parameters stand for the site's arguments (origin, desc and carrierOpBound see through them).
+func (w *World) instrsThroughHelpers(fn *ssa.Function, f func(ssa.Instruction)) {
+	w.instrsThroughHelpersDepth(fn, f, 0)
+}
+
+func (w *World) instrsThroughHelpersDepth(fn *ssa.Function, f func(ssa.Instruction), depth int) {
+	allInstrs(fn, func(in ssa.Instruction) {
+		f(in)
+		if depth >= 3 {
+			return
+		}
+		call, ok := in.(*ssa.Call)
+		if !ok {
+			return
+		}
+		g := helperCallee(call)
+		if g == nil || g.Blocks == nil || inlinedCallee(call) != nil {
+			return
+		}
+		saved := paramBindings
+		paramBindings = map[*ssa.Parameter]ssa.Value{}
+		for k, v := range saved {
+			paramBindings[k] = v
+		}
+		for k, p := range g.Params {
+			if k < len(call.Call.Args) {
+				paramBindings[p] = call.Call.Args[k]
+			}
+		}
+		w.instrsThroughHelpersDepth(g, f, depth+1)
+		paramBindings = saved
+	})
+}
+
+// carrierOpBound: carrierOp, also for an operation a shared helper performs on a parameter of a wider interface type
+// (grpc.ServerStream, grpc.ClientStream) that stands for a carrier stream at the call site being visited.
+func (w *World) carrierOpBound(c ssa.CallInstruction) (string, bool) {
+	if k, ok := w.carrierOp(c); ok {
+		return k, ok
+	}
+	cc := c.Common()
+	if !cc.IsInvoke() {
+		return "", false
+	}
+	o := origin(cc.Value)
+	if o == nil || o == cc.Value || !w.isCarrierType(o.Type()) {
+		return "", false
+	}
+	switch cc.Method.Name() {
+	case "SendMsg":
+		return "carrier-send", true
+	case "RecvMsg":
+		return "carrier-recv", true
+	case "CloseSend":
+		return "carrier-closesend", true
+	case "Header":
+		return "carrier-header", true
+	case "SendHeader":
+		return "carrier-sendheader", true
+	}
+	return "", false
+}
+
+// forEachReturnValueThrough: forEachReturnValue, continued through delegation: where the function returns what a private
+// helper (possibly shared with siblings) returned, the helper's return values are visited instead, and while they are the
+// helper's parameters stand for the arguments of that delegating call.
+func forEachReturnValueThrough(fn *ssa.Function, idx int, f func(v ssa.Value, at ssa.Instruction)) {
+	forEachReturnValueThroughDepth(fn, idx, f, 0)
+}
+
+func forEachReturnValueThroughDepth(fn *ssa.Function, idx int, f func(v ssa.Value, at ssa.Instruction), depth int) {
+	forEachReturnValue(fn, idx, func(v ssa.Value, at ssa.Instruction) {
+		sub := 0
+		var call *ssa.Call
+		switch x := stripConv(v).(type) {
+		case *ssa.Call:
+			call = x
+		case *ssa.Extract:
+			call, _ = x.Tuple.(*ssa.Call)
+			sub = x.Index
+		}
+		var g *ssa.Function
+		if call != nil && depth < 3 {
+			g = helperCallee(call)
+		}
+		if g == nil || g.Blocks == nil {
+			f(v, at)
+			return
+		}
+		saved := paramBindings
+		paramBindings = map[*ssa.Parameter]ssa.Value{}
+		for k, b := range saved {
+			paramBindings[k] = b
+		}
+		for k, p := range g.Params {
+			if k < len(call.Call.Args) {
+				paramBindings[p] = call.Call.Args[k]
+			}
+		}
+		forEachReturnValueThroughDepth(g, sub, f, depth+1)
+		paramBindings = saved
+	})
+}
